@@ -156,7 +156,7 @@ func BuildFarm(w *World, o FarmOpts) *Farm {
 	// last prefix block: the votes that make the "finalize" proposal pass (the application
 	// finalises a passed proposal by itself at the end of the following block)
 	var votes []txgen.Tx
-	for i := 0; i < 4; i++ {
+	for i := 0; i < 3; i++ {
 		votes = append(votes, txgen.ProposalVote(f.P["finalize"], v[i].Stake.Addr, v[i].Key.Addr, governance.OPIN_POSITIVE, fee, memo(), v[i].Stake, v[i].Key))
 	}
 	run(votes...)
@@ -205,7 +205,7 @@ func (f *Farm) Make(kind string) (txgen.Tx, error) {
 	case "REWARDS_REINVEST_NETWORK_DELEGATE":
 		return txgen.DelegReinvest(A, A.Addr, txgen.Amt("OLT", big.NewInt(1+k)), fee, memo), nil
 	case "ALLEGATION":
-		return txgen.Allegation(v[0].Key, fmt.Sprintf("reqN%d", f.n), v[0].Key.Addr, v[2].Key.Addr, w.C.Height, "proof", fee, memo), nil
+		return txgen.Allegation(v[0].Key, fmt.Sprintf("reqN%d", f.n), v[0].Key.Addr, v[2].Key.Addr, 2, "proof", fee, memo), nil
 	case "ALLEGATION_VOTE":
 		return txgen.AllegationVote(v[0].Key, "reqV", v[0].Key.Addr, 1, fee, memo), nil
 	case "RELEASE":
